@@ -106,3 +106,17 @@ Proof.
   unfold expand_any, eval_body. rewrite flat_map_app. fold (eval_body (render_to m)). rewrite to_style. f_equal.
   induction nonfinal as [|s r IH]; simpl; auto. f_equal. exact IH.
 Qed.
+
+(* inheritance: a base class executing the body b1 and a subclass executing b2 (its calls made from the
+   inherited states) create b1's transitions, then b2's - the machine of the one class whose body is
+   b1 followed by b2; hence every state has the same ordered transition list either way, for any
+   split and any mix of calling styles in the two bodies *)
+Theorem base_plus_subclass_style b1 b2 : eval_body (b1 ++ b2) = eval_body b1 ++ eval_body b2.
+Proof. unfold eval_body. apply flat_map_app. Qed.
+
+Corollary split_style m1 m2 : eval_body (render_to m1) ++ eval_body (render_from m2) = m1 ++ m2.
+Proof. rewrite to_style, from_style. reflexivity. Qed.
+
+Corollary split_per_state b1 b2 s :
+  per_state (eval_body (b1 ++ b2)) s = per_state (eval_body b1) s ++ per_state (eval_body b2) s.
+Proof. rewrite base_plus_subclass_style. unfold per_state. apply filter_app. Qed.
